@@ -593,7 +593,8 @@ func getTableDataRange(dt byte, table []byte, start, end []byte) ([]engine.CRang
 		if end == nil {
 			zmaxKey = encodeDataTableEnd(ZScoreType, []byte(table))
 		} else {
-			zmaxKey = zEncodeStopKey(table, end)
+			// end is exclusive: stop before the first score key of the zset named end
+			zmaxKey = zEncodeStartKey(table, end)
 		}
 		rgs = append(rgs, engine.CRange{Start: zminKey, Limit: zmaxKey})
 	}
